@@ -3,6 +3,8 @@
 //!   harness life  <seed> <ncases>     -- C09 C10 C11
 #[path = "../interpose.rs"]
 mod interpose;
+#[path = "../builder.rs"]
+mod builder;
 #[path = "../comm.rs"]
 mod comm;
 #[path = "../life.rs"]
@@ -39,11 +41,14 @@ static GLOBAL: CountingAlloc = CountingAlloc;
 fn main() {
     // a panic in a forked child must not unwind into the harness (the child would go on running the remaining cases)
     let default_hook = std::panic::take_hook();
+    let quiet = std::env::var_os("VERIF_QUIET_PANIC").is_some();
     std::panic::set_hook(Box::new(move |info| {
         if trace::in_child() {
             unsafe { libc::syscall(libc::SYS_exit_group, 101) };
         }
-        default_hook(info)
+        if !quiet {
+            default_hook(info)
+        }
     }));
     let args: Vec<String> = std::env::args().collect();
     let mode = args.get(1).map(|s| s.as_str()).unwrap_or("");
@@ -53,6 +58,7 @@ fn main() {
         "life" => life::run(seed, n, args.get(4).map(|s| s.as_str())),
         "comm" | "commbig" => comm::run(seed, n, args.get(4).and_then(|s| s.parse().ok()), mode == "commbig"),
         "spawn" => spawn::run(args.get(2).map(|s| s.as_str()).unwrap_or("-")),
+        "builder" => builder::run(args.get(2).map(|s| s.as_str()).unwrap_or("-")),
         _ => {
             eprintln!("usage: harness life|comm|commbig <seed> <ncases> [index] | spawn <casefile>");
             std::process::exit(2);
